@@ -6,6 +6,12 @@ import json, os
 HOOK_COMMITS = []  # filled from git below
 
 CHECKS = {
+    "C01": ("exploration", "PBT over topologies × fault patterns on an in-memory network of real nodes under virtual time; trace invariants + ground-truth closest set",
+            "N real DhtNetworkManager/TransportHandle instances exchange the real framed bytes through a hub (paused tokio clock); generated topology, ids, key, K, silent/dead/slow peers and lying stub peers (unknown, duplicate, requester, self ids, forged distances). From the returned list and the RPC trace: completes within a virtual-time bound, ≤K distinct nodes in ascending true XOR distance, each the local node or a peer whose reply was delivered in time, no learned peer closer than the farthest returned one left uncontacted, full mesh ⇒ exactly the K globally closest, never a request to itself, no peer queried twice, ≤1000 frames.",
+            "QUIC (ant-quic) is replaced by the hub below send_message / above the receive dispatcher; liars name ≤12 fabricated ids so the documented budget can satisfy completeness.", "5/C01"),
+    "C03": ("exploration", "stateful PBT over put/get/store histories on the in-memory network with ground truth read from every node's store after every step",
+            "Histories of put / get / store_local / raw PUT frames from stub peers / fault changes over 4 keys and values 0..=600 bytes (511/512/513 over-weighted) in generated topologies of 1..12 (30) real nodes: put Ok ⇒ local store and every successful replica hold the bytes, PUT frames go to distinct remote nodes and, in a quiescent network, exactly to the remote members of the closest-node lookup; get returns only bytes put under that key; not-found only after every learned peer was contacted or the budget ran out; values > 512 bytes refused on every path and in no store.",
+            "Same hub and virtual clock as C01.", "5/C03"),
     "C06": ("fault_enumeration", "stateful PBT × crash-point enumeration: every instrumented step (+ byte truncations of the record in flight) reopened and compared with the prefix-of-history model",
             "Generated histories of upsert/delete/batch/checkpoint/clean-reopen/crash-reopen (nested crash-recover cycles) under 4 flush policies with rotation forced every 4..16 entries (natural 1000-entry rotation in thorough); a crash-point callback copies the state directory at each step of record write, rotation and checkpoint; every image is reopened and must equal S_j for acked ≤ j ≤ issued (flush-always) resp. 0 ≤ j ≤ issued, a batch counting as one operation; clean restart reproduces the full state; transaction ids keep increasing across restarts.",
             "Crash = process death (page cache survives); crash points are the instrumented ones plus truncations of the record being written.", "5/C06"),
